@@ -498,6 +498,18 @@ class Grower:
             if force is not None:
                 adjy = force[0]
                 n = rng.randint(2, 3)
+            if force is None and getattr(self, "bmm_const_lhs", 0.0) and rng.random() < self.bmm_const_lhs:
+                # the CONSTANT is the left operand (tf.matmul(constant, x)): [1,n,b] x [1,b,f] -> [1,n,f]
+                adjx = rng.random() < 0.3
+                lhs = self.const([1, b, n] if adjx else [1, n, b])
+                z = self.new_act([1, n, f])
+                opts = s.BatchMatMulOptionsT()
+                opts.adjX, opts.adjY = adjx, False
+                g.op(BO.BATCH_MATMUL, [lhs, x3], [z], OPT.BatchMatMulOptions, opts)
+                self.out(z, [1, n, f])
+                self.tags.add("bmm_constant_left_operand")
+                self.op_kinds.append(kind)
+                return True
             if (force[1] if force is not None else rng.random() < 0.7):
                 yv = self.const([1, n, f] if adjy else [1, f, n])
             else:
@@ -542,13 +554,14 @@ class Grower:
 
 
 def grow_subgraph(g: G, rng, n_ops, prefix="", sig=None, kinds=None, share=0.0, shared_consts=None, p_unsupported=0.25,
-                  name_hazard=0.0, extra_outputs=0.3, allow_dead=0.1, const_output=0.0, const_kinds=None, alias_sig=None, bool_mask=0.06, sig_names=None, p_stateful=0.0, dup_output=0.0, dynamic_batch=0.0, fused_act=0.0, bmm_force=None):
+                  name_hazard=0.0, extra_outputs=0.3, allow_dead=0.1, const_output=0.0, const_kinds=None, alias_sig=None, bool_mask=0.06, sig_names=None, p_stateful=0.0, dup_output=0.0, dynamic_batch=0.0, fused_act=0.0, bmm_force=None, bmm_const_lhs=0.0):
     g.subgraph(name=(prefix or "main").encode())
     gr = Grower(g, rng, prefix, shared_consts)
     gr.const_kinds = const_kinds
     gr.dynamic_batch = dynamic_batch
     gr.fused_act = fused_act
     gr.bmm_force = bmm_force   # (adj_y, constant right-hand side) of every BATCH_MATMUL, or None = random
+    gr.bmm_const_lhs = bmm_const_lhs
     # inputs
     r = rng.random()
     if r < 0.55:
